@@ -47,6 +47,10 @@ func c10() {
 			}
 		}
 		flags := uint32([]int{1, 3, 1, 0, 2, 1, 3}[i%7])
+		divergent := i%6 == 4
+		if divergent { // one thread carries a filter of its own: a thread-sync load must then not report success
+			tc.Threads[r.Intn(len(tc.Threads))] = "ownfilter"
+		}
 		// the flag is requested through the package's named constants; the kernel values are the oracle's
 		cc := &vlib.ChildCase{Policy: spec, NNP: true, TSync: tc}
 		if flags&1 != 0 {
@@ -87,8 +91,15 @@ func c10() {
 		}
 		l := res.Line("loaded")
 		if ok, _ := l["ok"].(bool); !ok {
+			if divergent && flags&1 != 0 {
+				run.Count("thread_sync_refused_because_of_divergent_thread", 1) // no nil result: nothing to judge
+				return
+			}
 			run.Inconclusive(fmt.Sprintf("load failed in tsync child (%s): %v", desc, l["err"]))
 			return
+		}
+		if divergent {
+			run.Count("loads_next_to_a_divergent_thread_returning_nil", 1)
 		}
 		if _, fl, ok := installedProgram(l, 0); ok && fl != flags {
 			run.Violation("flags-modified", fmt.Sprintf("%s: Filter.Flag=%#x but %#x was handed to the kernel", desc, flags, fl), replay)
@@ -206,7 +217,8 @@ func c10() {
 		run.Require("probes_begun_before_flag", 10)
 		run.Require("threads_created_after_load", 10)
 		run.Require("children_under_race_detector", 5)
+		run.Require("thread_sync_refused_because_of_divergent_thread", 1)
 	}
 	run.Finish(threadsObserved, int64(len(signatures)),
-		"child processes with 1..64 pinned OS threads in PRNG mixes of states (spinning, tight probe loop, nanosleep, blocked in read, blocked in futex) plus spawners creating threads during the load, loader delayed by a PRNG amount, GOMAXPROCS 1/4/16, flags 0..3; every thread logs (flag seen before the syscall began, filtered?) per probe; offline check: flag seen => filtered (thread-sync), pre-existing other threads never filtered (no thread-sync); /proc state of all tasks at load; flags word at hook and syscall boundary; every fourth child under the race detector; distinct = interleaving signatures")
+		"child processes with 1..64 pinned OS threads in PRNG mixes of states (spinning, tight probe loop, nanosleep, blocked in read, blocked in futex, carrying a divergent filter of its own) plus spawners creating threads during the load, loader delayed by a PRNG amount, GOMAXPROCS 1/4/16, flags 0..3; every thread logs (flag seen before the syscall began, filtered?) per probe; offline check: flag seen => filtered (thread-sync), pre-existing other threads never filtered (no thread-sync); /proc state of all tasks at load; flags word at hook and syscall boundary; every fourth child under the race detector; distinct = interleaving signatures")
 }
